@@ -29,6 +29,12 @@ LICENSE file or <http://www.boost.org/LICENSE_1_0.txt>
 #include <gdstk/utils.hpp>
 #include <gdstk/vec.hpp>
 
+#ifdef GDSTK_VERIF_SIM
+// Verification hook, compiled in only with -DGDSTK_VERIF_SIM: a simulator may choose the initial size
+// of the CBLOCK staging buffer of write_oas so that its growth path runs on small inputs.
+extern "C" uint64_t gdstk_verif_oas_buffer_size;
+#endif
+
 namespace gdstk {
 
 struct ByteArray {
@@ -423,6 +429,9 @@ ErrorCode Library::write_oas(const char* filename, double circle_tolerance,
         return ErrorCode::OutputFileOpenError;
     }
     out.data_size = 1024 * 1024;
+#ifdef GDSTK_VERIF_SIM
+    if (gdstk_verif_oas_buffer_size > 0) out.data_size = gdstk_verif_oas_buffer_size;
+#endif
     out.data = (uint8_t*)allocate(out.data_size);
     out.cursor = NULL;
     out.crc32 = state.config_flags & OASIS_CONFIG_INCLUDE_CRC32;
